@@ -439,10 +439,9 @@ class EventLog(Entity):
         elif event_type == "RetentionCheck":
             self._apply_retention()
 
-            # Reschedule
-            from happysimulator.core.temporal import Instant
-
-            next_time = Instant.from_seconds(self.now.to_seconds() + self._retention_check_interval)
+            # Reschedule (integer clock arithmetic: a float round trip of `now` can
+            # truncate the next sweep back onto, or before, the current instant)
+            next_time = self.now + self._retention_check_interval
             return [
                 Event(
                     time=next_time,
